@@ -407,26 +407,42 @@ func checkFirstMatch(p *Prog, r *Report, listMatches, ruleMatches *ssa.Function,
 		}
 		return "", false, false
 	}
-	pe := &PathEnum{Atom: atom, BackEdge: "next-rule", Outcome: func(last ssa.Instruction, _ []string) string {
+	var pe *PathEnum
+	pe = &PathEnum{Atom: atom, BackEdge: "next-rule", Outcome: func(last ssa.Instruction, _ []string) string {
 		ret, ok := last.(*ssa.Return)
 		if !ok {
 			return "panic"
 		}
 		v := retResults(ret)[0]
+		flip := false
+		for {
+			u, isU := v.(*ssa.UnOp)
+			if !isU || u.Op != token.NOT {
+				break
+			}
+			v, flip = u.X, !flip
+		}
 		if c, ok := v.(*ssa.Const); ok && c.Value != nil {
-			if constant.BoolVal(c.Value) {
+			if constant.BoolVal(c.Value) != flip {
+				return "excluded"
+			}
+			return "kept"
+		}
+		if b, known := pe.Known(v); known {
+			if b != flip {
 				return "excluded"
 			}
 			return "kept"
 		}
 		if neg, ok := isIncTest(v); ok {
-			if neg {
+			if neg != flip {
 				return "excluded-iff-not-include"
 			}
 			return "excluded-iff-include"
 		}
 		return "?unrecognised-result"
 	}}
+	pe.Inline = func(f *ssa.Function) bool { return f != ruleMatches }
 	pe.Run(listMatches)
 	spec := func(ask func(string) bool) string {
 		if !ask("MORE") {
